@@ -24,6 +24,9 @@
                                  are the register-order ones pulled back along one and the same map
                                  site j ↦ atom perm[j] (this is what commit 4109696 established; the
                                  tree before it is `Variant.asFound`, refuted by `asFound_counterexample`).
+    * `installedString_relabelled`, `same_map` – a user-supplied initial state is rewritten into site order with the
+                                 same map (site j ← atom perm[j]) as drives and interactions; the inverse map is refuted
+                                 on a 3-cycle (`inverse_state_counterexample`).
   Not proved (assumed, validated numerically by the dense-evolution oracle of c02.py):
     the accuracy of two-site TDVP projector splitting, of the Krylov exponential and of the
     truncation — `DynamicsClaim` below is the full statement, kept as a `Prop`.
@@ -293,6 +296,50 @@ theorem asFound_counterexample : ¬ InstalledRelabelled .asFound := by
   have := (h [2, 0, 1] [[0, 12, 0]] [[0, 1, 2], [1, 0, 3], [2, 3, 0]] 0 [0, 12, 0] [0, 12, 0]
     [[0, 2, 3], [2, 0, 1], [3, 1, 0]] rfl rfl (by decide)).1 1 0 rfl
   simp at this
+
+/-! ### The initial state uses the same map -/
+
+/-- site `i` of the rewritten basis string carries the symbol of atom `perm[i]` -/
+def StringRelabelled (perm : List Nat) (site atom : List β) : Prop :=
+  ∀ (i a : Nat), perm[i]? = some a → site[i]? = atom[a]? ∧ (atom[a]?).isSome
+
+/-- **The user-supplied initial state is rewritten with `qubit_permutation` itself**: site `i` ← atom `perm[i]`. -/
+theorem installedString_relabelled (perm : List Nat) (b s : List β)
+    (h : installedString .direct perm b = some s) : StringRelabelled perm s b := by
+  intro i a hi
+  simp only [installedString, permuteRow] at h
+  obtain ⟨y, h1, h2⟩ := mapOpt_get _ perm s h i a hi
+  exact ⟨by rw [h2, h1], by simp [h1]⟩
+
+/-- **State, drives and interactions are relabelled by one and the same map** site `j` ↦ atom `perm[j]`:
+the Hamiltonian installed for step `k` is `P·H_k·P†` *and* the initial state is `P·ψ₀` for the same `P`. -/
+theorem same_map (perm : List Nat) (drive u : List (List β)) (k : Nat) (row d : List β) (m : List (List β))
+    (b s : List β) (hrow : drive[k]? = some row)
+    (hd : installedDrive .repaired perm drive k = some d) (hm : installedInteraction perm u = some m)
+    (hs : installedString .direct perm b = some s) :
+    Relabelled perm d m row u ∧ StringRelabelled perm s b :=
+  ⟨installed_relabelled perm drive u k row d m hrow hd hm, installedString_relabelled perm b s hs⟩
+
+/-- the statement of `installedString_relabelled` for a variant of `init_initial_state` -/
+def StateRelabelledStmt (v : StateMap) : Prop :=
+  ∀ (perm : List Nat) (b s : List Nat), installedString v perm b = some s → StringRelabelled perm s b
+
+theorem direct_state_relabelled : StateRelabelledStmt .direct :=
+  fun perm b s h => installedString_relabelled perm b s h
+
+/-- **The inverse map is wrong as soon as the site order has a 3-cycle**: site order `[1, 2, 0]`, atoms carrying
+10, 20, 30 — with `inv_permutation(perm) = [2, 0, 1]` site 0 gets atom 2's symbol although it carries atom 1.
+(On identity, swaps and reversals the two maps coincide, which is why such a slip survives symmetric tests.) -/
+theorem inverse_state_counterexample : ¬ StateRelabelledStmt .inverse := by
+  intro h
+  have := (h [1, 2, 0] [10, 20, 30] [30, 10, 20] (by decide) 0 1 rfl).1
+  simp at this
+
+/-- … and the two maps do coincide on a self-inverse order (here a reversal), so only ≥ 3-cycles tell them apart -/
+example : installedString .inverse [3, 2, 1, 0] [10, 20, 30, 40] = installedString .direct [3, 2, 1, 0] [10, 20, 30, 40] := by
+  decide
+
+example : installedString .direct [1, 2, 0] [10, 20, 30] = some [20, 30, 10] := by decide
 
 end perm
 
